@@ -122,8 +122,8 @@ func (m c06) checkValue(c *fw.Ctx, v gts.Location) {
 	}
 	// print differs: the parser re-reduced the value.
 	okc, _ := sameDenotation(before, after, true)
-	if raw := model.Atoms(before); len(model.CollapseDups(raw)) == len(raw) {
-		okc = false // the listed deviation only removes a repeated part
+	if !model.OnlyRepeatedPointsRemoved(before, after) {
+		okc = false // the listed deviation only removes a repeated single-base part
 	}
 	if okc && c.KFEnabled("join-reduction-not-idempotent") {
 		c.Known("join-reduction-not-idempotent", enc)
@@ -175,8 +175,7 @@ func (m c06) checkString(c *fw.Ctx, s, origin string) {
 		return
 	}
 	a, b := model.Parts(v), model.Parts(v2)
-	rawA := model.Atoms(a)
-	if ok, _ := sameDenotation(a, b, true); ok && len(model.CollapseDups(rawA)) < len(rawA) && c.KFEnabled("join-reduction-not-idempotent") {
+	if ok, _ := sameDenotation(a, b, true); ok && model.OnlyRepeatedPointsRemoved(a, b) && c.KFEnabled("join-reduction-not-idempotent") {
 		c.Known("join-reduction-not-idempotent", enc)
 		return
 	}
